@@ -121,6 +121,27 @@ def conditions(rng, thorough: bool) -> list:
     for op in ("==", "!=", "<", ">=", ">", "<="):
         for k in (0, 1, 2):
             out.append(Cond(f"len(x) {op} {k}", "len" + op))
+    # the same comparisons with the operands swapped (the variable on the right)
+    mirror = {"==": "==", "!=": "!=", "<": ">", ">=": "<=", ">": "<", "<=": ">="}
+    for op in ("==", "!=", "<", ">=", ">", "<="):
+        for k in (0, 1, 2, 3):
+            out.append(Cond(f"{k} {mirror[op]} len(x)", "len-swapped" + op))
+    for lit in ["1", "'a'", "None", "Color.RED", "True", "0"]:
+        v = eval(lit, ns)
+        if v is None or isinstance(v, (bool, prelude.Color)):
+            out.append(Cond(f"{lit} is x", "is-swapped", ty.Lit(v)))
+            out.append(Cond(f"{lit} is not x", "is-not-swapped", ty.Lit(v)))
+        out.append(Cond(f"{lit} == x", "eq-swapped", ty.Lit(v), eq_lits=(v,)))
+        out.append(Cond(f"{lit} != x", "ne-swapped", ty.Lit(v), eq_lits=(v,)))
+    # membership in a str / bytes is substring containment, not element equality
+    out.append(Cond("x in 'ab'", "in-str", S))
+    out.append(Cond("x not in 'ab'", "not-in-str", S))
+    out.append(Cond("x in b'ab'", "in-bytes", ty.Cls(bytes)))
+    # membership in other containers of literals
+    out.append(Cond("x in [1, 2]", "in-list", ty.Union(ty.Lit(1), ty.Lit(2)), eq_lits=(1, 2)))
+    out.append(Cond("x in {'a', 'b'}", "in-set", ty.Union(ty.Lit("a"), ty.Lit("b")), eq_lits=("a", "b")))
+    out.append(Cond("x in {'a': 0, 'b': 1}", "in-dict", ty.Union(ty.Lit("a"), ty.Lit("b")), eq_lits=("a", "b")))
+    out.append(Cond("x not in [1, 2]", "not-in-list", ty.Union(ty.Lit(1), ty.Lit(2)), eq_lits=(1, 2)))
     out.append(Cond("is_int(x)", "TypeIs", I))
     out.append(Cond("is_str(x)", "TypeIs", S))
     out.append(Cond("is_a(x)", "TypeIs", A))
